@@ -17,6 +17,12 @@ def PC.isPre : PC → Bool
   | .body _ | .setBuilt => true
   | _ => false
 
+theorem isPre_inRegion (p : PC) (h : p.isPre = true) : p.inRegion = true := by
+  cases p <;> simp_all [PC.isPre, PC.inRegion]
+
+theorem isWork_inRegion (p : PC) (h : p.isWork = true) : p.inRegion = true := by
+  cases p <;> simp_all [PC.isWork, PC.inRegion]
+
 /-- Invariant of the double-checked lock, over every interleaving. -/
 structure BInv (c : Cfg) : Prop where
   holder : ∀ t, (c.pc t).inRegion = true → c.lock = some t
@@ -28,6 +34,23 @@ structure BInv (c : Cfg) : Prop where
   pre : ∀ t, (c.pc t).isPre = true → c.built = false
   post : ∀ t k, c.pc t = .post k → c.built = true
   doneOk : ∀ t ph, c.pc t = .done ph → ph = .complete ∧ c.built = true
+
+theorem r0_of_work (pc : Nat → PC) (t : Nat) (v : PC) (b : Bool) (r : Nat) (hv : v.isWork = true) :
+    b = false → (∀ x, (upd pc t v x).isWork = false) → r = 0 := by
+  intro _ hall; have := hall t; simp [hv] at this
+
+theorem r0_of_built (P : Prop) (b : Bool) (r : Nat) (hb : b = true) : b = false → P → r = 0 := by
+  intro h; simp [hb] at h
+
+theorem r0_keep (pc : Nat → PC) (t : Nat) (v : PC) (b : Bool) (r : Nat) (hv : (pc t).isWork = false)
+    (r0 : b = false → (∀ x, (pc x).isWork = false) → r = 0) :
+    b = false → (∀ x, (upd pc t v x).isWork = false) → r = 0 := by
+  intro hb hall
+  apply r0 hb
+  intro x
+  by_cases hx : x = t
+  · subst hx; exact hv
+  · have := hall x; rwa [upd_other _ _ _ _ hx] at this
 
 theorem binv_init (b p : Nat) : BInv (init b p) := by
   refine ⟨?_, ?_, ?_, ?_, ?_, ?_, ?_, ?_, ?_⟩ <;> simp [init, PC.inRegion, PC.isWork, PC.isPre]
@@ -43,14 +66,32 @@ theorem binv_step (t : Nat) (c c' : Cfg) (h : BInv c) (hs : step t c = some c') 
     split at hs <;> (simp only [Option.some.injEq] at hs; subst hs)
     · rename_i hb
       have := r2 hb
-      refine ⟨?_, ?_, ?_, ?_, ?_, ?_, ?_, ?_, ?_⟩ <;> simp only <;> grind [upd, PC.inRegion, PC.isWork, PC.isPre]
-    · refine ⟨?_, ?_, ?_, ?_, ?_, ?_, ?_, ?_, ?_⟩ <;> simp only <;> grind [upd, PC.inRegion, PC.isWork, PC.isPre]
+      refine ⟨?_, ?_, ?_, ?_, ?_, ?_, ?_, ?_, ?_⟩
+      rotate_left 2
+      · first
+          | (apply r0_of_work c.pc t; simp [PC.isWork]; done)
+          | (apply r0_of_built; simp_all; done)
+          | (apply r0_keep c.pc t _ _ _ _ r0; simp [hpc, PC.isWork]; done)
+      all_goals (simp only; grind [upd, PC.inRegion, PC.isWork, PC.isPre, isPre_inRegion, isWork_inRegion])
+    · refine ⟨?_, ?_, ?_, ?_, ?_, ?_, ?_, ?_, ?_⟩
+      rotate_left 2
+      · first
+          | (apply r0_of_work c.pc t; simp [PC.isWork]; done)
+          | (apply r0_of_built; simp_all; done)
+          | (apply r0_keep c.pc t _ _ _ _ r0; simp [hpc, PC.isWork]; done)
+      all_goals (simp only; grind [upd, PC.inRegion, PC.isWork, PC.isPre, isPre_inRegion, isWork_inRegion])
   · -- wantLock
     rename_i hpc
     split at hs
     · simp only [Option.some.injEq] at hs; subst hs
       rename_i hl
-      refine ⟨?_, ?_, ?_, ?_, ?_, ?_, ?_, ?_, ?_⟩ <;> simp only <;> grind [upd, PC.inRegion, PC.isWork, PC.isPre]
+      refine ⟨?_, ?_, ?_, ?_, ?_, ?_, ?_, ?_, ?_⟩
+      rotate_left 2
+      · first
+          | (apply r0_of_work c.pc t; simp [PC.isWork]; done)
+          | (apply r0_of_built; simp_all; done)
+          | (apply r0_keep c.pc t _ _ _ _ r0; simp [hpc, PC.isWork]; done)
+      all_goals (simp only; grind [upd, PC.inRegion, PC.isWork, PC.isPre, isPre_inRegion, isWork_inRegion])
     · cases hs
   · -- locked
     rename_i hpc
@@ -58,7 +99,13 @@ theorem binv_step (t : Nat) (c c' : Cfg) (h : BInv c) (hs : step t c = some c') 
     split at hs <;> (simp only [Option.some.injEq] at hs; subst hs)
     · rename_i hb
       have := r2 hb
-      refine ⟨?_, ?_, ?_, ?_, ?_, ?_, ?_, ?_, ?_⟩ <;> simp only <;> grind [upd, PC.inRegion, PC.isWork, PC.isPre]
+      refine ⟨?_, ?_, ?_, ?_, ?_, ?_, ?_, ?_, ?_⟩
+      rotate_left 2
+      · first
+          | (apply r0_of_work c.pc t; simp [PC.isWork]; done)
+          | (apply r0_of_built; simp_all; done)
+          | (apply r0_keep c.pc t _ _ _ _ r0; simp [hpc, PC.isWork]; done)
+      all_goals (simp only; grind [upd, PC.inRegion, PC.isWork, PC.isPre, isPre_inRegion, isWork_inRegion])
     · rename_i hb
       have hnb : c.built = false := by simpa using hb
       have nowork : ∀ x, (c.pc x).isWork = false := by
@@ -74,7 +121,13 @@ theorem binv_step (t : Nat) (c c' : Cfg) (h : BInv c) (hs : step t c = some c') 
           subst this
           simp [hpc, PC.isWork] at hw
       have hr0 := r0 hnb nowork
-      refine ⟨?_, ?_, ?_, ?_, ?_, ?_, ?_, ?_, ?_⟩ <;> simp only <;> grind [upd, PC.inRegion, PC.isWork, PC.isPre]
+      refine ⟨?_, ?_, ?_, ?_, ?_, ?_, ?_, ?_, ?_⟩
+      rotate_left 2
+      · first
+          | (apply r0_of_work c.pc t; simp [PC.isWork]; done)
+          | (apply r0_of_built; simp_all; done)
+          | (apply r0_keep c.pc t _ _ _ _ r0; simp [hpc, PC.isWork]; done)
+      all_goals (simp only; grind [upd, PC.inRegion, PC.isWork, PC.isPre, isPre_inRegion, isWork_inRegion])
   · -- body (k+1)
     rename_i k hpc
     simp only [Option.some.injEq] at hs; subst hs
@@ -82,13 +135,25 @@ theorem binv_step (t : Nat) (c c' : Cfg) (h : BInv c) (hs : step t c = some c') 
     have hnb : c.built = false := pre t (by simp [hpc, PC.isPre])
     have uniq : ∀ x, (c.pc x).inRegion = true → x = t := by
       intro x hx; have := holder x hx; rw [hlk] at this; simpa using this.symm
-    refine ⟨?_, ?_, ?_, ?_, ?_, ?_, ?_, ?_, ?_⟩ <;> simp only <;> grind [upd, PC.inRegion, PC.isWork, PC.isPre]
+    refine ⟨?_, ?_, ?_, ?_, ?_, ?_, ?_, ?_, ?_⟩
+    rotate_left 2
+    · first
+        | (apply r0_of_work c.pc t; simp [PC.isWork]; done)
+        | (apply r0_of_built; simp_all; done)
+        | (apply r0_keep c.pc t _ _ _ _ r0; simp [hpc, PC.isWork]; done)
+    all_goals (simp only; grind [upd, PC.inRegion, PC.isWork, PC.isPre, isPre_inRegion, isWork_inRegion])
   · -- body 0
     rename_i hpc
     simp only [Option.some.injEq] at hs; subst hs
     have hlk : c.lock = some t := holder t (by simp [hpc, PC.inRegion])
     have hnb : c.built = false := pre t (by simp [hpc, PC.isPre])
-    refine ⟨?_, ?_, ?_, ?_, ?_, ?_, ?_, ?_, ?_⟩ <;> simp only <;> grind [upd, PC.inRegion, PC.isWork, PC.isPre]
+    refine ⟨?_, ?_, ?_, ?_, ?_, ?_, ?_, ?_, ?_⟩
+    rotate_left 2
+    · first
+        | (apply r0_of_work c.pc t; simp [PC.isWork]; done)
+        | (apply r0_of_built; simp_all; done)
+        | (apply r0_keep c.pc t _ _ _ _ r0; simp [hpc, PC.isWork]; done)
+    all_goals (simp only; grind [upd, PC.inRegion, PC.isWork, PC.isPre, isPre_inRegion, isWork_inRegion])
   · -- setBuilt
     rename_i hpc
     simp only [Option.some.injEq] at hs; subst hs
@@ -97,13 +162,25 @@ theorem binv_step (t : Nat) (c c' : Cfg) (h : BInv c) (hs : step t c = some c') 
     have hr := r1 t (by simp [hpc, PC.isWork])
     have uniq : ∀ x, (c.pc x).inRegion = true → x = t := by
       intro x hx; have := holder x hx; rw [hlk] at this; simpa using this.symm
-    refine ⟨?_, ?_, ?_, ?_, ?_, ?_, ?_, ?_, ?_⟩ <;> simp only <;> grind [upd, PC.inRegion, PC.isWork, PC.isPre]
+    refine ⟨?_, ?_, ?_, ?_, ?_, ?_, ?_, ?_, ?_⟩
+    rotate_left 2
+    · first
+        | (apply r0_of_work c.pc t; simp [PC.isWork]; done)
+        | (apply r0_of_built; simp_all; done)
+        | (apply r0_keep c.pc t _ _ _ _ r0; simp [hpc, PC.isWork]; done)
+    all_goals (simp only; grind [upd, PC.inRegion, PC.isWork, PC.isPre, isPre_inRegion, isWork_inRegion])
   · -- post (k+1)
     rename_i k hpc
     simp only [Option.some.injEq] at hs; subst hs
     have hlk : c.lock = some t := holder t (by simp [hpc, PC.inRegion])
     have hb := post t _ hpc
-    refine ⟨?_, ?_, ?_, ?_, ?_, ?_, ?_, ?_, ?_⟩ <;> simp only <;> grind [upd, PC.inRegion, PC.isWork, PC.isPre]
+    refine ⟨?_, ?_, ?_, ?_, ?_, ?_, ?_, ?_, ?_⟩
+    rotate_left 2
+    · first
+        | (apply r0_of_work c.pc t; simp [PC.isWork]; done)
+        | (apply r0_of_built; simp_all; done)
+        | (apply r0_keep c.pc t _ _ _ _ r0; simp [hpc, PC.isWork]; done)
+    all_goals (simp only; grind [upd, PC.inRegion, PC.isWork, PC.isPre, isPre_inRegion, isWork_inRegion])
   · -- post 0
     rename_i hpc
     simp only [Option.some.injEq] at hs; subst hs
@@ -112,7 +189,13 @@ theorem binv_step (t : Nat) (c c' : Cfg) (h : BInv c) (hs : step t c = some c') 
     have := r2 hb
     have uniq : ∀ x, (c.pc x).inRegion = true → x = t := by
       intro x hx; have := holder x hx; rw [hlk] at this; simpa using this.symm
-    refine ⟨?_, ?_, ?_, ?_, ?_, ?_, ?_, ?_, ?_⟩ <;> simp only <;> grind [upd, PC.inRegion, PC.isWork, PC.isPre]
+    refine ⟨?_, ?_, ?_, ?_, ?_, ?_, ?_, ?_, ?_⟩
+    rotate_left 2
+    · first
+        | (apply r0_of_work c.pc t; simp [PC.isWork]; done)
+        | (apply r0_of_built; simp_all; done)
+        | (apply r0_keep c.pc t _ _ _ _ r0; simp [hpc, PC.isWork]; done)
+    all_goals (simp only; grind [upd, PC.inRegion, PC.isWork, PC.isPre, isPre_inRegion, isWork_inRegion])
   · cases hs
 
 theorem binv_exec (s : List Nat) : ∀ c, BInv c → BInv (exec s c) := by
